@@ -3,13 +3,14 @@
    cn.py:solve_cn_model builds it) and theories/CnSpec.v (canonical internal forms, documented objective, enumeration
    with exclusion cuts, folding, estimate_cn branches).  No bound on the number of configurations, regions or max_cn.
 
-   NOT proved (named in the evidence): (1) [candidates] enumerates every feasible active set (two complete slots x
-   prefixes of extras x prefix of PSEUDO) — the optimality / completeness theorems below are therefore relative to
-   the enumerated canonical forms; that enumeration is compared with CBC's own enumeration on every generated case
-   by the behavioural tie.  (2) "the score of a reported structure is the objective of its BEST explanation":
+   The enumeration [candidates] of canonical forms (two complete slots x prefixes of extras x prefix of PSEUDO) is proved
+   COMPLETE (C03_cn_candidates_complete: the active set of every feasible point of the ILP is, up to order, one of the
+   enumerated forms), so optimality, completeness and non-emptiness are stated over ALL feasible points of the ILP
+   (C03_cn_optimal_abs, C03_cn_complete_abs, C03_cn_nonempty_abs) as well as over the enumerated forms.
+   NOT proved (named in the evidence): "the score of a reported structure is the objective of its BEST explanation":
    what is proved is [C03_cn_scores_least] (least among the yielded explanations); see DESIGN.md section 5 item 11. *)
 From Coq Require Import String Sorting.Sorted.
-From Aldy Require Import Base Consts Lp CnModel CnSpec CnProofs Consts_here Consts_wf Exprs_cn Tied_cn.
+From Aldy Require Import Base Consts Lp CnModel CnSpec CnProofs CnCompleteProofs Consts_here Consts_wf Exprs_cn Tied_cn.
 Import List.
 Open Scope Z_scope.
 
@@ -144,6 +145,35 @@ Theorem C03_cn_fold_monotone : forall i (F0 F : list slot) n, NoDup F0 -> incl F
 Proof. exact fold_monotone. Qed.
 Goal True. idtac "ASSUME C03_cn_fold_monotone". Abort.
 Print Assumptions C03_cn_fold_monotone.
+
+(* ---- the enumeration is complete: the three statements above over ALL feasible points of the ILP ---- *)
+Theorem C03_cn_candidates_complete : forall c i a, feasible (gen c i) a ->
+  exists F, In F (candidates i) /\ form_ok i (map fst F) = true /\ bounds_ok i F = true /\
+            Permutation.Permutation (act_structs i a) F.
+Proof. exact cn_candidates_complete. Qed.
+Goal True. idtac "ASSUME C03_cn_candidates_complete". Abort.
+Print Assumptions C03_cn_candidates_complete.
+(* no feasible point of the ILP has an objective below the first reported score *)
+Theorem C03_cn_optimal_abs : forall c i, consts_wf c = true -> hyps_ok i = true ->
+  forall k o t, solve_cn c i = (k, o) :: t -> forall a, feasible (gen c i) a -> (o <= objective (gen c i) a)%Q.
+Proof. exact solve_first_optimal_abs. Qed.
+Goal True. idtac "ASSUME C03_cn_optimal_abs". Abort.
+Print Assumptions C03_cn_optimal_abs.
+(* every feasible point whose documented objective lies inside the gap contains a reported structure that scores no more *)
+Theorem C03_cn_complete_abs : forall c i, consts_wf c = true -> hyps_ok i = true ->
+  forall a, feasible (gen c i) a -> in_gap c i (form_objective c i (act_structs i a)) ->
+  exists F0 o', In F0 (candidates i) /\ form_ok i (map fst F0) = true /\ bounds_ok i F0 = true /\
+                incl (map fst F0) (act i a) /\ In (fold_form i (map fst F0), o') (solve_cn c i) /\
+                (o' <= form_objective c i F0)%Q /\ (form_objective c i F0 <= form_objective c i (act_structs i a))%Q.
+Proof. exact solve_complete_abs. Qed.
+Goal True. idtac "ASSUME C03_cn_complete_abs". Abort.
+Print Assumptions C03_cn_complete_abs.
+(* a feasible ILP yields at least one reported structure *)
+Theorem C03_cn_nonempty_abs : forall c i, consts_wf c = true -> hyps_ok i = true ->
+  forall a, feasible (gen c i) a -> solve_cn c i <> [].
+Proof. exact solve_nonempty_abs. Qed.
+Goal True. idtac "ASSUME C03_cn_nonempty_abs". Abort.
+Print Assumptions C03_cn_nonempty_abs.
 
 (* ---- cn_user / cn_default ---- *)
 Theorem C03_cn_user_verbatim : forall c e, e_user e <> [] -> (forall n, In n (e_user e) -> known e n = true) ->
